@@ -111,6 +111,34 @@ fn first_bad_card(m: &Module, prog: &refsem::Program) -> Option<Loc> {
     out
 }
 
+/// `Module::lookup_submodule(namespace)` + `get_card(index)` on the real module find the card the
+/// harness finds in its own tree
+fn api_resolves_same(m: &Module, l: &Loc) -> Result<(), String> {
+    let Some(want) = card_at(m, l) else { return Ok(()) };
+    let real = crate::lower::module(m);
+    let sub = if l.ns.is_empty() { Some(&real) } else { real.lookup_submodule(&l.ns.join(".")) };
+    let Some(sub) = sub else {
+        return Err(format!("lookup_submodule({:?}) finds nothing, the harness resolves {}", l.ns.join("."), describe(m, l)));
+    };
+    let idx = cao_lang::compiler::CardIndex::from_slice(l.function, &l.path);
+    match sub.get_card(&idx) {
+        Ok(c) => {
+            let (a, b_) = (serde_json::to_string(&c.body).unwrap_or_default(), serde_json::to_string(&crate::lower::card(want).body).unwrap_or_default());
+            if a != b_ {
+                return Err(format!("the crate's get_card resolves {}.{}.{:?} to another card than the source tree holds there ({})", l.ns.join("."), l.function, l.path, describe(m, l)));
+            }
+            // the function lookup by name agrees as well
+            let fname = sub.functions.get(l.function).map(|f| f.0.clone()).unwrap_or_default();
+            let full = if l.ns.is_empty() { fname.clone() } else { format!("{}.{}", l.ns.join("."), fname) };
+            if real.lookup_function(&full).map(|f| f.cards.len()) != sub.functions.get(l.function).map(|f| f.1.cards.len()) {
+                return Err(format!("lookup_function({full:?}) does not find the function that holds {}", describe(m, l)));
+            }
+            Ok(())
+        }
+        Err(e) => Err(format!("the crate's get_card fails for {}.{}.{:?}: {e} (the harness resolves {})", l.ns.join("."), l.function, l.path, describe(m, l))),
+    }
+}
+
 impl Judge for LocJudge {
     fn property(&self) -> &'static str {
         "C15"
@@ -164,6 +192,13 @@ impl Judge for LocJudge {
                 class: format!("chain:{}:{}", err.chain.get(i).and_then(|l| card_at(m, l)).map(|c| c.kind()).unwrap_or("?"), err.chain.get(i).map(|w| relation(m, w, rest.get(i))).unwrap_or_else(|| "extra".into())),
                 what: format!("{}: call chain entry #{i} is {}, expected {} (chain length {} vs {})", exp.result, rest.get(i).map(|l| describe(m, l)).unwrap_or_else(|| "<missing>".into()), err.chain.get(i).map(|l| describe(m, l)).unwrap_or_else(|| "<none>".into()), rest.len(), err.chain.len()),
             };
+        }
+        // the statement says "resolves, in the source module it was compiled from": every judged
+        // entry must resolve to that very card through the crate's own lookup API as well
+        for l in got.trace.iter().take(1 + err.chain.len()) {
+            if let Err(w) = api_resolves_same(m, l) {
+                return JR::Fail { class: "api-resolution".into(), what: w };
+            }
         }
         if rest.len() > err.chain.len() + 1 {
             return JR::Fail { class: "chain:too-long".into(), what: format!("{} trace entries after the call chain of {} (at most the program entry is allowed)", rest.len() - err.chain.len(), err.chain.len()) };
